@@ -24,7 +24,7 @@ from core.report import Result
 
 from .c05_detector import check_detector
 from .c05_lowering import check_are_named, check_delegation, check_filter_selection, check_matcher_wiring
-from .c05_matcher import check_layer_mapping_update, check_regex_resolution_per_evaluation
+from .c05_matcher import check_conversion_map_complete, check_layer_mapping_update, check_regex_resolution_per_evaluation
 from .c05_names import check_layer_lookup_names
 from .common import dotted, stmt_of, where
 
@@ -144,6 +144,7 @@ def run(repo: Repo) -> Result:
     res.add("C05.R6", "src::closures in loops bind early", not lbs, f"{nloops} loop(s) / comprehension(s) create closures; none reads a loop variable late", kind="flow")
     # ---- R2, R7
     check_layer_mapping_update(repo, res)
+    check_conversion_map_complete(repo, res)
     check_regex_resolution_per_evaluation(repo, res)
     # ---- R3, R4
     check_detector(repo, res)
